@@ -2,6 +2,7 @@ import RallyModel.RaceCtl
 import RallyModel.Race
 import RallyProofs.Race
 import RallyProofs.RaceStuck
+import RallyProofs.Retry
 import RallyGen.FailureRelay
 /-!
 # C09 — any failure or cancellation ends the race as failed, never as success
@@ -251,6 +252,130 @@ theorem task_executor_failure_is_reported :
   refine ⟨rfl, fun f => ?_⟩
   cases f <;> rfl
 
+/-! ### track preparation: failures of every processor, in every status of the preparator -/
+
+/-- **track_preparator_forwards_failure_in_every_status** — whatever status the track preparator is in (initializing, a processor
+    running, a processor complete — e.g. while the NEXT processor is asked for its tasks — or none), a BenchmarkFailure it receives is
+    passed on to the driver and its status is left alone: the relay table `FailureRelay.forwardsTo` holds in every state. -/
+theorem track_preparator_forwards_failure_in_every_status (st : PrepStatus) :
+    prepHandle st .benchmarkFailure = ([.forwardToDriver], st) ∧ prepHandle st .poison = ([.failureToDriver], st) := ⟨rfl, rfl⟩
+
+/-- **seeding_failure_is_reported** — when the next track processor raises while it is asked for its tasks, the handler never
+    declares the track prepared; in the regular state (a processor running, last child idle) it sends exactly one BenchmarkFailure,
+    to the sender of the WorkerIdle (a task executor, which relays it back: `failure_reaches_race_control`), and it is then in
+    status `complete` — the status in which the relayed failure arrives (previous theorem). -/
+theorem seeding_failure_is_reported (st : PrepStatus) (last : Bool) :
+    PrepSend.trackPrepared ∉ (prepHandle st (.workerIdle last .raises)).1 ∧
+    (st = .running → last = true → prepHandle st (.workerIdle last .raises) = ([.failureToSender], .complete)) := by
+  cases st <;> cases last <;> simp [prepHandle]
+
+/-- **track_prepared_only_when_every_processor_is_done** — TrackPrepared is sent by exactly one (status, message) combination: a
+    processor is running, the last child reports idle and no processor is left. -/
+theorem track_prepared_only_when_every_processor_is_done (st : PrepStatus) (ev : PrepEv)
+    (h : PrepSend.trackPrepared ∈ (prepHandle st ev).1) : st = .running ∧ ev = .workerIdle true .noneLeft := by
+  cases ev with
+  | benchmarkFailure => simp [prepHandle] at h
+  | poison => simp [prepHandle] at h
+  | readyForWork b => cases b <;> simp [prepHandle] at h
+  | workerIdle l n => cases l <;> cases n <;> cases st <;> simp [prepHandle] at h ⊢
+
+/-- **preparation_reports_every_failure** — for EVERY queue of track processors (any number, any number of tasks each): the track
+    is declared prepared iff no processor raises when asked for its tasks and no task fails; otherwise a BenchmarkFailure arrives
+    at the driver. -/
+theorem preparation_reports_every_failure (first : Bool) (ps : List Proc) :
+    prepRun first ps = .prepared ↔ ∀ p ∈ ps, p.seedRaises = false ∧ p.taskFails.any id = false := by
+  induction ps generalizing first with
+  | nil => simp [prepRun]
+  | cons p ps ih =>
+    simp only [prepRun, List.mem_cons, forall_eq_or_imp]
+    cases h1 : p.seedRaises
+    · cases h2 : p.taskFails.any id
+      · simpa using ih false
+      · simp
+    · simp
+
+/-- … and the failure needs at most three messages to get to the driver, wherever in the queue it happens -/
+theorem preparation_failure_within_three_hops (first : Bool) (ps : List Proc) (h : Nat) (hf : prepRun first ps = .failed h) :
+    1 ≤ h ∧ h ≤ 3 := by
+  induction ps generalizing first with
+  | nil => simp [prepRun] at hf
+  | cons p ps ih =>
+    simp only [prepRun] at hf
+    cases h1 : p.seedRaises
+    · cases h2 : p.taskFails.any id
+      · simp only [h1, h2] at hf; exact ih false (by simpa using hf)
+      · simp [h1, h2] at hf; omega
+    · cases first <;> simp [h1] at hf <;> omega
+
+/-- the three hops are the relay table's: a failure handed to a task executor travels preparator → driver → race control -/
+theorem task_executor_relays_to_the_driver :
+    relay FailureRelay.forwardsTo 2 .taskExecutor = [.taskExecutor, .trackPreparator, .driver] := by decide +kernel
+
+/-! ### one request: the abort policy, and requests behind the retry wrapper -/
+
+/-- **request_failure_aborts** — under on-error=abort every failed request (an unsuccessful result, any transport error, any API
+    error) ends in RallyAssertionError; a connection error of the exact class does so under every policy; and a sample that says
+    "success" is only produced for a runner that returned a value other than an unsuccessful dict. -/
+theorem request_failure_aborts (o : RunOut) :
+    (o.isRequestFailure = true → execSingle true o = .assertionError) ∧
+    (∀ abort, execSingle abort .connErrorExact = .assertionError) ∧
+    (∀ abort, execSingle abort o = .sample true → o = .tuple2 ∨ o = .dictSuccess ∨ o = .dictNoKey ∨ o = .otherValue) := by
+  refine ⟨?_, fun abort => rfl, fun abort => ?_⟩
+  · cases o <;> simp [RunOut.isRequestFailure, execSingle]
+  · cases o <;> cases abort <;> simp [execSingle]
+
+/-- under on-error=abort no outcome of the runner yields a sample of a failed request: the executor either gets a successful
+    sample or an exception -/
+theorem abort_never_records_a_failed_request (o : RunOut) : execSingle true o ≠ .sample false := by
+  cases o <;> simp [execSingle]
+
+/-- a successful sample under on-error=abort comes from a returned value that is not an unsuccessful result -/
+theorem success_sample_needs_a_good_value (k : Retry.Kind) (h : execSingle true (ofRetryKind k) = .sample true) :
+    k.isValue = true ∧ k ≠ Retry.Kind.dictFail := by
+  cases k <;> simp [ofRetryKind, execSingle, Retry.Kind.isValue] at h ⊢
+
+/-- **retried_request_never_invents_success** — for EVERY retry configuration and EVERY script of answers to the attempts: if a
+    request behind the retry wrapper ends as a successful sample under on-error=abort, then some attempt really returned a value
+    that is not an unsuccessful result (or the configuration allows no attempt at all: retries < 0). In particular a request whose
+    attempts were all answered with errors (time-outs included, the last attempt included) never counts as a success. -/
+theorem retried_request_never_invents_success (p : Retry.Params) (outs : List Retry.Outcome)
+    (h : retriedRequest true p outs = some (.sample true)) :
+    (∃ (i : Nat) (o : Retry.Outcome), outs[i]? = some o ∧ o.kind.isValue = true ∧ o.kind ≠ Retry.Kind.dictFail) ∨
+      (Retry.cfg p).maxAttempts = 0 := by
+  have hres := Retry.loop_res (Retry.cfg p) 0 outs
+  unfold retriedRequest Retry.retry at h
+  cases hr : (Retry.loop (Retry.cfg p) 0 outs).res with
+  | returned o =>
+    rw [hr] at hres h
+    obtain ⟨i, _, hi, _⟩ := hres
+    have hv := success_sample_needs_a_good_value o.kind (by simpa using h)
+    exact Or.inl ⟨i, o, hi, hv.1, hv.2⟩
+  | raised o =>
+    rw [hr] at hres h
+    obtain ⟨i, _, hi, hs⟩ := hres
+    have hv := success_sample_needs_a_good_value o.kind (by simpa using h)
+    have := Retry.classify_raise_isValue _ _ _ hs
+    rw [hv.1] at this
+    cases this
+  | fellThrough =>
+    rw [hr] at hres
+    right
+    have := hres.1
+    omega
+  | pending => rw [hr] at h; simp at h
+
+/-- **exhausted_retries_abort** — the other direction, at the last attempt: whatever the earlier attempts were, when the deciding
+    attempt is an error or an unsuccessful result, on-error=abort turns the request into an exception (never `none`, never a sample). -/
+theorem decided_failure_aborts (p : Retry.Params) (outs : List Retry.Outcome) (o : Retry.Outcome)
+    (hres : (Retry.retry p outs).res = .returned o ∨ (Retry.retry p outs).res = .raised o)
+    (hk : o.kind ≠ Retry.Kind.dictOk ∧ o.kind ≠ Retry.Kind.nonDict) :
+    ∃ r, retriedRequest true p outs = some r ∧ ∀ b, r ≠ .sample b := by
+  unfold retriedRequest
+  have key : ∀ k : Retry.Kind, k ≠ Retry.Kind.dictOk ∧ k ≠ Retry.Kind.nonDict → ∀ b, execSingle true (ofRetryKind k) ≠ .sample b := by
+    intro k hk b
+    cases k <;> simp [ofRetryKind, execSingle] at hk ⊢
+  rcases hres with h | h <;> rw [h] <;> exact ⟨_, rfl, key _ hk⟩
+
 /-! ### non-vacuity (tests, labelled as tests) -/
 
 example : outcome (run {} [.engineStarted, .preparationComplete, .taskFinished, .failure, .benchComplete, .engineStopped]) = .failed ∧
@@ -265,5 +390,17 @@ def exStuckCfg : Race.Cfg :=
 
 example : ((Race.runEvs exStuckCfg (Race.init exStuckCfg) [.deliverDW 0, .deliverWD 0, .deliverDW 0, .wakeW 0]).map
     fun s => ((s.ws 0).pos, s.d2r)) = some (.inCol 0 0, [.taskFinished]) := by decide
+
+/-- three processors, the third cannot determine its tasks: the failure arrives at the driver after three messages -/
+example : prepRun true [⟨false, [false, false]⟩, ⟨false, []⟩, ⟨true, [false]⟩] = .failed 3 ∧
+    prepRun true [⟨false, [false, false]⟩, ⟨false, []⟩, ⟨false, [false]⟩] = .prepared ∧
+    prepRun true [⟨false, [false]⟩, ⟨false, [false, true]⟩] = .failed 2 := by decide
+example : prepHandle .running (.workerIdle true .raises) = ([.failureToSender], .complete) ∧
+    prepHandle .complete .benchmarkFailure = ([.forwardToDriver], .complete) := by decide
+/-- retries = 2, every attempt answered with HTTP 408: three attempts, then the request aborts; with a healthy third answer it is a success -/
+example : retriedRequest true ⟨false, none, some 2, none, none, none⟩ [⟨.api408, 0⟩, ⟨.api408, 1⟩, ⟨.api408, 2⟩] = some .assertionError ∧
+    retriedRequest true ⟨false, none, some 2, none, none, none⟩ [⟨.api408, 0⟩, ⟨.api408, 1⟩, ⟨.dictOk, 2⟩] = some (.sample true) ∧
+    retriedRequest false ⟨false, none, some 2, none, none, none⟩ [⟨.api408, 0⟩, ⟨.api408, 1⟩, ⟨.api408, 2⟩] = some (.sample false) := by decide
+example : execSingle false .connErrorExact = .assertionError ∧ execSingle false .connErrorSub = .sample false := by decide
 
 end C09
